@@ -458,3 +458,9 @@ fn encode_decode_cmd() {
     assert!(peers2.is_some());
     assert_eq!(format!("{:?}", peers), format!("{:?}", peers2.unwrap()));
 }
+
+// Verification hooks: compiled only with --cfg dswd_vpncloud_verif; the code lives outside of this repository
+#[cfg(dswd_vpncloud_verif)]
+pub mod verif_hooks {
+    include!(concat!(env!("VPNCLOUD_VERIF_DRIVER_DIR"), "/hooks_beacon.rs"));
+}
